@@ -122,10 +122,23 @@ func mfNotes(t mfToggles, rule string) []string {
 	return n
 }
 
+// The field names of the one-field family. The specification calls them Fa and FA; the identifiers really used
+// differ in case by a letter whose two cases have different UTF-8 lengths (sharp s), so that comparing names
+// "under case folding" cannot be done on bytes.
+const (
+	mfDstField     = "Fa\u00df"
+	mfCaseVarField = "FA\u1e9e"
+)
+
+// mfSymbolic maps the identifiers really used back to the specification's names.
+func mfSymbolic(s string) string {
+	return strings.ReplaceAll(strings.ReplaceAll(s, mfCaseVarField, "FA"), mfDstField, "Fa")
+}
+
 func mfConcretise(k int, m *mfCase) *b1.Case {
 	js, _ := json.Marshal(m)
 	id := core.HashID(string(js))
-	srcName := map[string]string{"same": "Fa", "casevar": "FA", "other": "Gz"}[m.Cfg.Nm]
+	srcName := map[string]string{"same": mfDstField, "casevar": mfCaseVarField, "other": "Gz"}[m.Cfg.Nm]
 	st, dt := universe.ExprOf(m.Cfg.St), universe.ExprOf(m.Cfg.Dt)
 	var d strings.Builder
 	switch m.Cfg.Ck {
@@ -136,7 +149,7 @@ func mfConcretise(k int, m *mfCase) *b1.Case {
 	case "getterP":
 		fmt.Fprintf(&d, "type S%d struct {\n\tgv %s\n}\n\nfunc (s *S%d) %s() %s { return s.gv }\n", k, st, k, srcName, st)
 	}
-	fmt.Fprintf(&d, "\ntype D%d struct {\n\tFa %s\n}\n", k, dt)
+	fmt.Fprintf(&d, "\ntype D%d struct {\n\t%s %s\n}\n", k, mfDstField, dt)
 	notes := mfNotes(m.Cfg.Tg, m.Cfg.Rule)
 	// half of the :typecast methods get the toggle from their interface: a converter interface of their own that
 	// carries `:typecast` and sorts before interface Convergen, whose other methods must stay without it
@@ -340,9 +353,10 @@ func mfObserve(r *b1.Result) (o outcome, what string, ok bool) {
 	if r.Fn == nil {
 		return outcome{K: "fail"}, fmt.Sprintf("%s: no function %s in the output (%s)", mfDescribe(m), r.Case.Func, r.ParseErr), false
 	}
-	o, anomaly := fieldOutcome(r.Fn, "DST.Fa")
+	o, anomaly := fieldOutcome(r.Fn, "DST."+mfDstField)
+	o.T = mfSymbolic(o.T)
 	if anomaly != "" {
-		return o, fmt.Sprintf("%s: %s", mfDescribe(m), anomaly), false
+		return o, fmt.Sprintf("%s: %s", mfDescribe(m), mfSymbolic(anomaly)), false
 	}
 	return o, "", true
 }
@@ -616,7 +630,7 @@ func C01(c *core.Ctx) {
 		compileJudge(func(r *b1.Result) string { return "signature " + sigDescribe(r.Case.Data.(*sigCase)) }))
 	c.AddCount("programs", int64(st.Functions))
 	hc := hookCases(c)
-	st = b1.Run(c, b1.Options{Name: "hookc01", PerFile: 40, Family: "hooks", Compile: true}, hc,
+	st = b1.Run(c, hookOptions("hookc01", true), hc,
 		compileJudge(func(r *b1.Result) string { return hookDescribe(r.Case.Data.(*hookCase)) }))
 	c.AddCount("programs", int64(st.Functions))
 	// struct-level walk with notations
